@@ -58,6 +58,50 @@ QUICK_STD = ["default-G2u", "default-G4u", "nonuniform-analytic", "nonuniform-re
              "memory", "reset-weights", "uninformed-50", "shrinkage-t", "pool-2", "capped-300", "prior-sampling", "tolerance-loose"]
 
 
+GEN_AXES = dict(
+    model=["G2u", "G2n", "G4u", "Tie2", "G2r", "G3u"],
+    flow_proposal_class=[None, None, "AugmentedFlowProposal", "ClusteringFlowProposal"],
+    latent=[{}, {}, {"latent_prior": "uniform_nball"}, {"latent_prior": "uniform_nball", "constant_volume_mode": False}, {"constant_volume_mode": False},
+            {"constant_volume_mode": False, "fixed_radius": 2.5}, {"latent_prior": "gaussian", "constant_volume_mode": False}, {"latent_prior": "flow", "constant_volume_mode": False},
+            {"constant_volume_mode": False, "compute_radius_with_all": True}, {"volume_fraction": 0.8}],
+    reparam=[None, None, "logit", "zscore", "inversion", "inversion-duplicate", "null", "rescaletobounds"],
+    ftype=["realnvp", "realnvp", "maf", "nsf"],
+    nlive=[10, 30, 50, 100, 100, 200],
+    uninformed=[{}, {}, {"maximum_uninformed": 0}, {"maximum_uninformed": 40}, {"analytic_priors": True}],
+    policy=[{}, {}, {"memory": 40}, {"reset_weights": 2}, {"reset_flow": 2}, {"training_frequency": 50, "cooldown": 10}, {"train_on_empty": False, "training_frequency": 60},
+            {"retrain_acceptance": False}],
+    pool=[{}, {}, {"truncate_log_q": True}, {"drawsize": 25}, {"poolsize": 30}, {"update_poolsize": False}, {"check_acceptance": True}],
+    misc=[{}, {}, {"shrinkage_expectation": "t"}, {"stopping": 0.5}, {"stopping": 0.02}, {"max_iteration": 250}],
+)
+
+
+def generated_std_cases(seed, n, scratch, start=0):
+    """Seeded random combinations over the option axes (thorough tiers): diversity beyond the fixed cells. Invalid combinations are rejected by nessai up front and counted."""
+    import os
+
+    out = []
+    for i in range(n):
+        rng = rng_for(seed, "genstd", i)
+        pick = {k: v[int(rng.integers(len(v)))] for k, v in GEN_AXES.items()}
+        kw = {}
+        if pick["flow_proposal_class"]:
+            kw["flow_proposal_class"] = pick["flow_proposal_class"]
+        for k in ("latent", "uninformed", "policy", "pool", "misc"):
+            kw.update(pick[k])
+        if pick["reparam"]:
+            kw["reparameterisations"] = pick["reparam"]
+        kw["flow_config"] = {"ftype": pick["ftype"]}
+        kw["nlive"] = pick["nlive"]
+        if pick["model"] == "Tie2":
+            kw["stopping"] = max(kw.get("stopping", 0.5), 0.5)
+        kw.setdefault("max_iteration", int(12 * kw["nlive"] + 200))
+        kw["seed"] = int(rng.integers(1, 2**31 - 1))
+        resume_at = int(kw["nlive"] * rng.uniform(0.6, 2.5)) if i % 3 == 1 else None
+        out.append(dict(name=f"gen#{i}", cell=f"gen-{pick['model']}-{pick['flow_proposal_class'] or 'FlowProposal'}-{pick['ftype']}", model=pick["model"], kwargs=kw, resume_at=resume_at,
+                        checkpoint_interval=int(max(5, kw["nlive"] * 0.4)), outdir=os.path.join(scratch, f"gen-{start + i}"), _timeout=240, generated=True))
+    return out
+
+
 def std_cases(seed, tier, scratch, resume_fraction=3, names=None):
     """Cases for run_standard: quick = one seed over the quick list; thorough = every cell x several seeds."""
     import os
@@ -81,6 +125,8 @@ def std_cases(seed, tier, scratch, resume_fraction=3, names=None):
             out.append(dict(name=f"{nm}#{rep}", cell=nm, model=model, kwargs=kw, resume_at=resume_at, checkpoint_interval=int(max(5, nlive * 0.4)),
                             outdir=os.path.join(scratch, f"run-{k}"), _timeout=150))
             k += 1
+    if tier == "thorough" and names is None:
+        out += generated_std_cases(seed, 150, scratch)
     return out
 
 
